@@ -69,6 +69,8 @@ def item(rng, shape):
     b = aggref(rng.choice(FNS), rng.choice(["v", "w"]))
     if shape == 3: return {"t": "bin", "op": rng.choice(["+", "-", "*"]), "a": a, "b": b}
     if shape == 4: return {"t": "bin", "op": rng.choice(["*", "/", "+"]), "a": par({"t": "bin", "op": rng.choice(["+", "-"]), "a": a, "b": b}), "b": num(rng.choice([2, 4]))}
+    if shape == 9:     # an aggregate followed by a PARENTHESISED literal expression
+        return {"t": "bin", "op": rng.choice(["*", "/", "+"]), "a": a, "b": par({"t": "bin", "op": rng.choice(["+", "*"]), "a": num(rng.choice([1, 2])), "b": num(rng.choice([2, 3, 5]))})}
     if shape == 8:     # two aggregates over DIFFERENT expression arguments in one item: each aggregates its own expression
         f1, f2 = rng.choice(["sum", "max", "min", "avg"]), rng.choice(["sum", "max", "min"])
         return {"t": "bin", "op": rng.choice(["+", "-", "*"]), "a": aggref(f1, "v", True), "b": aggref(f2, "w", True)}
@@ -125,7 +127,7 @@ def mk(rng, nsel, having_kind, norder, limit, distinct, tie_first=False):
     sel = []
     for k in range(nsel):
         # shapes 1 and 5 (an item that STARTS with one aggregate call followed by arithmetic, e.g. avg(v) + 3) are a pinned finding (AggThenArithmeticPerRow)
-        sel.append({"al": "c%d" % k, "e": item(rng, rng.choice([0, 2, 3, 4, 0, 2, 3, 4, 6, 8]))})
+        sel.append({"al": "c%d" % k, "e": item(rng, rng.choice([0, 2, 3, 4, 0, 2, 3, 4, 6, 8, 9]))})
     if distinct and not gsel and rng.random() < 0.5:
         # un-aliased plain aggregates (reported under their text, e.g. max(v)): DISTINCT still sees every delivered column
         sel = [{"al": "%s(%s)" % (f, c), "e": aggref(f, c), "unaliased": 1} for f, c in rng.sample([(f, c) for f in FNS for c in ("v", "w")], nsel)]
@@ -218,7 +220,7 @@ def run(tier):
     want = 1500 if quick else 40000
     while len(scen) < want:
         i = len(scen)
-        sc = mk(rng, rng.choice([1, 2, 2, 3]), [None, "alias", "agg", "and2"][i % 4], [0, 1, 1, 2][(i // 4) % 4], [0, 0, 1, 2, 5][(i // 16) % 5] if (i // 4) % 4 else 0, i % 11 == 0)
+        sc = mk(rng, rng.choice([1, 2, 2, 3]), [None, "alias", "agg", "and2"][i % 4], [0, 1, 1, 2][(i // 4) % 4], [0, 0, 1, 2, 5][(i // 16) % 5] if (i // 4) % 4 else ([1, 2][(i // 64) % 2] if (i // 32) % 2 else 0), i % 11 == 0)      # LIMIT also without ORDER BY: any n of the survivors
         if sc is not None:
             scen.append(sc)
     nj = 0
